@@ -113,6 +113,22 @@ MUTS = [
     ('SF4', 'change', 'C10', B, "                         if i in subset_indices]", "                         if i not in subset_indices]"),
     ('SF5', 'preserve', 'C10', B, "if min(subset_indices) < 0:", "if 0 > min(subset_indices):"),
     ('SF6', 'unsupported', 'C10', B, "n_subsets = len(set(subset_indices))", "n_subsets = len(frozenset(subset_indices))"),
+    # dataquery.py NodePath.__str__ / slice_to_str (round 2)
+    ('SG1', 'change', 'C15', Q, "else '@{}'.format(self.slice_to_str(self.subset_slice))", "else '#{}'.format(self.slice_to_str(self.subset_slice))"),
+    ('SG2', 'change', 'C15', Q, "slc.stop if slc.stop is not None else '',", "slc.stop if slc.stop is not None else '0',"),
+    ('SG3', 'change', 'C15', Q, "component.separator, component.id, self.slice_to_str(component.slice)", "component.id, component.separator, self.slice_to_str(component.slice)"),
+    ('SG4', 'change', 'C15', Q, "else '[{}:{}:{}]'.format(", "else '[{}:{}:{}:]'.format("),
+    ('SG5', 'preserve', 'C15', Q, "ret = '' if self.subset_slice is None else '@{}'.format(self.slice_to_str(self.subset_slice))",
+     "ret = '@{}'.format(self.slice_to_str(self.subset_slice)) if self.subset_slice is not None else ''"),
+    ('SG6', 'unsupported', 'C15', Q, "return '[{}]'.format(slc) if not", "return '[%s]' % slc if not"),
+    # descriptors.py __str__ of the decoded descriptors (round 2)
+    ('SH1', 'change', 'C16', D, "return 'A{:05d}'.format(self.id)", "return 'A{:06d}'.format(self.id)"),
+    ('SH2', 'change', 'C01', D, "        return '{:06d}'.format(self.id)", "        return '{:05d}'.format(self.id)"),
+    ('SH3', 'change', 'C16', D, "    224255: 'F',", "    224255: 'D',"),
+    ('SH4', 'change', 'C09', D, "return 'S{:05d}'.format(self.id)", "return 's{:05d}'.format(self.id)"),
+    ('SH5', 'change', 'C16', D, "marker_descriptor_prefix.get(self.marker_id, 'M'),", "marker_descriptor_prefix.get(self.marker_id, 'X'),"),
+    ('SH6', 'preserve', 'C16', D, "return 'A{:05d}'.format(self.id)", "return 'A' + '{:05d}'.format(self.id)"),
+    ('SH7', 'unsupported', 'C01', D, "        return '{:06d}'.format(self.id)", "        return '%06d' % self.id"),
     # ---- stage D: the whole NodePathParser of dataquery.py (stateful class, C15_src_parse_eq) ----------------
     ('D1', 'change', 'C15', Q, "                if self.current_state == STATE_START_PARSING:\n                    self.current_state = STATE_START_SUBSET\n",
      "                if True:\n                    self.current_state = STATE_START_SUBSET\n"),
